@@ -1,10 +1,10 @@
 #!/bin/bash
-# usage: tools/seed_matrix.sh [tier]   - runs every seeded change against the check of its own property (in parallel, on scratch copies)
+# usage: [SEED_FILTER=regex] [SEED_JOBS=n] tools/seed_matrix.sh [tier]   - runs every seeded change against the check of its own property (in parallel, on scratch copies)
 # and records the outcome in seeded/<id>/meta.json (detected_by). Extra (seed, check) pairs can be listed in tools/seed_extra_pairs.txt.
 TIER=${1:-quick}
 cd /verif
-( for d in seeded/*/; do s=$(basename $d); p=$(python3 -c "import json;print(json.load(open('$d/meta.json'))['property'])"); echo "$s $p $TIER"; done
-  [ -f tools/seed_extra_pairs.txt ] && grep -v '^#' tools/seed_extra_pairs.txt | awk -v t=$TIER 'NF==2{print $1, $2, t}' ) | sort -u | xargs -P 5 -L 1 tools/seed_run.sh 2>&1 | grep -v WARNING | sort > /dev/shm/seed_matrix.out
+( for d in seeded/*/; do s=$(basename $d); echo "$s" | grep -Eq -e "${SEED_FILTER:-.}" || continue; p=$(python3 -c "import json;print(json.load(open('$d/meta.json'))['property'])"); echo "$s $p $TIER"; done
+  [ -f tools/seed_extra_pairs.txt ] && grep -v '^#' tools/seed_extra_pairs.txt | awk -v t=$TIER 'NF==2{print $1, $2, t}' | awk -v f="${SEED_FILTER:-.}" '$1 ~ f' ) | sort -u | xargs -P ${SEED_JOBS:-5} -L 1 tools/seed_run.sh 2>&1 | grep -v WARNING | sort > /dev/shm/seed_matrix.out
 cat /dev/shm/seed_matrix.out
 python3 - <<'PY'
 import json, re, os, collections
